@@ -4,7 +4,7 @@ import sys
 
 if os.environ.get('PYTHONHASHSEED') != '0':
     os.environ['PYTHONHASHSEED'] = '0'
-    os.execv(sys.executable, [sys.executable, '-m', 'vp.selftest'])
+    os.execv(sys.executable, [sys.executable, '-m', 'vp.selftest'] + sys.argv[1:])
 
 from vp.boot import Harness  # noqa
 from vp.http import R, call  # noqa
@@ -29,8 +29,47 @@ def main():
     assert logs[0] == logs[1], 'nondeterministic'
     h.write_image(base)
     assert Dump(h.dbfile).providers == {}
+    # one Harness per process: the E-conc part runs in a process of its own
+    import subprocess
+    subprocess.check_call([sys.executable, '-m', 'vp.selftest', '--conc'])
     print('selftest ok')
 
 
+def conc_selftest():
+    """E-conc bookkeeping: after every scheduling step the table digests that enter the state key
+    equal digests computed from scratch (they once lagged one commit behind), the schedule
+    [read1, write0.., write1] is explored as a class of its own, and replaying one schedule twice
+    gives identical observations."""
+    from vp import explore_conc, reqs
+    from vp.boot import make_base_image
+    from vp.explore_conc import TABLES, Execution
+    eng = explore_conc.Engine(make_base_image())
+    setup = [reqs.mk_rp(1)]
+    rq = [reqs.put_invs(P(1), 0, {'VCPU': {'total': 8}}, tag='PUT inventories'),
+          R('PUT', '/resource_providers/' + P(1), {'name': 'renamed'}, mv='1.39', tag='rename')]
+    img = eng.build(setup)
+    eng.h.write_image(img)
+    ex0 = Execution(eng, rq, ())
+    ex0._digest_tables(TABLES)
+    eng.start_digests = dict(ex0.tabdig)
+    ex = Execution(eng, rq, (0, 1, 0, 1))
+    ex.start()
+    for c in (0, 1, 0, 1):
+        ex.step(c)
+        ex.key()
+        fresh = Execution(eng, rq, ())
+        fresh._digest_tables(TABLES)
+        assert ex.tabdig == fresh.tabdig, 'stale table digest after step of request %d' % c
+    leaves = []
+    eng.explore(img, rq, leaf=lambda e, d: leaves.append(tuple(e.choices)))
+    assert (0, 1, 0, 1) in leaves or (1, 0, 0, 1) in leaves, leaves
+    a, da = eng.run_schedule(img, rq, [0, 1, 0, 1])
+    b, db = eng.run_schedule(img, rq, [0, 1, 0, 1])
+    assert a.obs == b.obs and da.core(gens=True) == db.core(gens=True), 'replay diverged'
+
+
 if __name__ == '__main__':
-    main()
+    if '--conc' in sys.argv:
+        conc_selftest()
+    else:
+        main()
